@@ -9,14 +9,14 @@ def _t(n): return open(os.path.join(_d, n)).read()
 
 INTS = ['i128', 'i64', 'i32', 'i16', 'i8', 'u128', 'u64', 'u32', 'u16', 'u8']
 VALUE = [
-  F('Value::decimal', props=['C03', 'C09', 'C17'], spec="        ensures self matches Value::Number(d) ==> r == Ok::<Decimal, Error>(d), !(self is Number) ==> r is Err,  // @C03,C09,C17 accessor.decimal"),
-  F('Value::string', props=['C03', 'C17'], spec="        ensures self matches Value::String(s) ==> r == Ok::<String, Error>(s), !(self is String) ==> r is Err,  // @C03,C17 accessor.string"),
-  F('Value::bool', props=['C03', 'C17'], spec="        ensures self matches Value::Bool(b) ==> r == Ok::<bool, Error>(b), !(self is Bool) ==> r is Err,  // @C03,C17 accessor.bool"),
-  F('Value::list', props=['C03', 'C17'], spec="        ensures self matches Value::List(l) ==> r == Ok::<Vec<Value>, Error>(l), !(self is List) ==> r is Err,  // @C03,C17 accessor.list"),
-  F('Value::integer', props=['C03', 'C04', 'C17'],
+  F('Value::decimal', props=['C03', 'C04', 'C09', 'C17'], spec="        ensures self matches Value::Number(d) ==> r == Ok::<Decimal, Error>(d), !(self is Number) ==> r is Err,  // @C03,C04,C09,C17 accessor.decimal"),
+  F('Value::string', props=['C03', 'C04', 'C17'], spec="        ensures self matches Value::String(s) ==> r == Ok::<String, Error>(s), !(self is String) ==> r is Err,  // @C03,C04,C17 accessor.string"),
+  F('Value::bool', props=['C03', 'C04', 'C07', 'C17'], spec="        ensures self matches Value::Bool(b) ==> r == Ok::<bool, Error>(b), !(self is Bool) ==> r is Err,  // @C03,C04,C07,C17 accessor.bool"),
+  F('Value::list', props=['C03', 'C04', 'C17'], spec="        ensures self matches Value::List(l) ==> r == Ok::<Vec<Value>, Error>(l), !(self is List) ==> r is Err,  // @C03,C04,C17 accessor.list"),
+  F('Value::integer', props=['C03', 'C04', 'C06', 'C17'],
     spec="""        ensures
-            self matches Value::Number(d) ==> (match dec_to_i64(d) { Some(n) => r == Ok::<i64, Error>(n), None => r is Err }),  // @C03,C04,C17 integer.scale_independent
-            !(self is Number) ==> r is Err,  // @C03,C17 accessor.integer""",
+            self matches Value::Number(d) ==> (match dec_to_i64(d) { Some(n) => r == Ok::<i64, Error>(n), None => r is Err }),  // @C03,C04,C06,C17 integer.scale_independent
+            !(self is Number) ==> r is Err,  // @C03,C04,C17 accessor.integer""",
     ops=[
       Ins('entry', '', """        proof {
             broadcast use axiom_text_parse, axiom_decimal_to_string, axiom_normalize;
@@ -124,7 +124,7 @@ def _table_text(tab):
         t += 'pub open spec fn builtin_%s(op: &str) -> bool { %s }\n' % (mgr, ' || '.join('op == %s' % r['args'][0] for r in tab[mgr]) or 'false')
     t += 'pub proof fn lemma_builtin_tables_are_documented()\n    ensures\n'
     for op, (p, s, l) in DOC_INFIX.items():
-        t += '        builtin_infix("%s") == Some((%dint, %s, %s)),  // @C02,C03,C08 table.infix\n' % (op, p, b(s), b(l))
+        t += '        builtin_infix("%s") == Some((%dint, %s, %s)),  // @C02,C03,%sC08 table.infix\n' % (op, p, b(s), b(l), 'C06,' if s else '')
     for mgr, names in (('prefix', DOC_PREFIX), ('postfix', DOC_POSTFIX), ('func', DOC_FUNCS)):
         for n in names: t += '        builtin_%s("%s"),  // @C02,C03 table.%s\n' % (mgr, n, mgr)
     t += '        forall|op: &str| #[trigger] builtin_infix(op) is Some ==> (%s),  // @C02,C03 table.no_extra_infix\n' % ' || '.join('op == "%s"' % o for o in DOC_INFIX)
@@ -194,7 +194,7 @@ def _parts(repo_src, g):
         Ghost(_t('hv_ghost.rs'), props=['C03', 'C17'], name='hv_ghost'),
         Ghost(_t('hv_specs.rs'), props=['C03'], name='hv_specs'),
         Ghost(LIT, props=['C03'], name='hv_literals'),
-        Ghost(_table_text(tab), props=['C02', 'C03', 'C08'], name='hv_table'),
+        Ghost(_table_text(tab), props=['C02', 'C03', 'C06', 'C08'], name='hv_table'),
         Src('operator.rs(lifted)', loader=Lop, fns=specs_op, props=['C03', 'C04', 'C09'], regex_rules=RULES),
         Src('function.rs(lifted)', loader=Lfn, fns=specs_fn, props=['C03', 'C04'], regex_rules=RULES),
         Ghost('\n} } // verus!\nfn main(){}\n', name='tail'),
